@@ -13,6 +13,11 @@
    * Selectors are conjunctions of atoms  k == 'v' | k != 'v' | has(k) | !has(k)  over label maps.
    * Inputs that the model does not compute: the start index of randomBlockGenerator per (pool, node) and the
      Go map order in which ReleaseByHandle visits the blocks of a handle.
+   * Two variants of the code are modelled, selected by flags that the driver sets after probing the tree under
+     test: g_fx (claimAffineBlock writes an already owned block back before confirming the affinity,
+     fixes/C22-claim-existing-block-bumps-revision.patch; programs of C19/ModelV.v) and g_capfix (numBlocksOwned
+     starts from every block that stays affine to the host, fixes/C20-count-all-affine-blocks.patch, instead of
+     the host's blocks inside the pools usable by the request).
    * Domain: IPv4, pools pairwise disjoint with block sizes 2^k >= 2 (a /32 block makes the generator's seed
      time dependent), IPCooldownSeconds = 0, no HostReservedAttr, no MaxAllocToHandlePerIPVersion, blocks
      claimed less than a minute ago are never reclaimed (EmptyBlockMinReclaimAge). *)
